@@ -220,6 +220,7 @@ class Verdict:
         if not any(v is not None for v in verdicts):
             return None  # not a comparison of strong counts: not the orphan test
         self.verdict_sites.add(b)
+        eng.obl("GATE-6", "verdict", b)
         where = cl["where"]
         if cl["effects"]:
             eng.violate("GATE-6", "verdict-closure-has-effects", "the orphan-test predicate (%s) has side effects (%s)" % (where, cl["effects"][0].kind), b, st)
@@ -262,6 +263,8 @@ class Verdict:
             return None
         M = src[1]
         self.lowering_sites.add(ev.b)
+        eng.obl("GATE-4", "group-lowering", ev.b)
+        eng.obl("PROV-1", "group-lowering", ev.b)
         if ("verdict", M) not in st.flags:
             eng.violate("GATE-4", "lowering-without-verdict", "group teardown lowers the strong count of a member of %s on a path where the orphan test for that map has not succeeded" % show(M), ev.b, st)
         # PROV-1: the amount
@@ -367,6 +370,7 @@ class Trace:
                 return None
             v = ev.args[1]
             self.pushes.add(ev.b)
+            eng.obl("GATE-10", "worklist-push", ev.b)
             ks, n = self.key_fields()
             # fields the expansion depends on: the box pointer only
             extra = sorted(k for k in ks if k != "ptr")
@@ -419,6 +423,7 @@ class Trace:
                 tb = src[1]
                 if any(f[0] == "expanded" and f[2] == tb for f in st.flags):
                     E = mk_field(("variant", inner, "Some", 1), "0", "")
+                    eng.obl("GATE-7", "table-element", b)
                     return add(st, ("elem_pending", E, b))
         return None
 
@@ -456,6 +461,8 @@ class Trace:
                     st = rem(st, lambda g: g == f)
                     st = add(st, ("elem_reg", E, S, target, kind, ev.res if ev.op == "entry" else None))
                     self.elem_arms.add((ev.b, kind))
+                    eng.obl("GATE-7", "registration:%s" % KIND_NAMES.get(kind, "any"), ev.b)
+                    eng.obl("GATE-8", "registration:%s" % KIND_NAMES.get(kind, "any"), ev.b)
                     if ev.op == "insert":
                         # plain insert overwrites
                         if kind in ("0", "2"):
@@ -508,6 +515,7 @@ class Trace:
             if f[0] == "popped" and ev.box == mk_field(f[2], "ptr", LINK):
                 P = f[2]
                 self.expansions.add(ev.b)
+                eng.obl("GATE-9", "expansion", ev.b)
                 tests = [g for g in st.flags if g[0] == "vis_test" and g[2] == P]
                 ins = [g for g in st.flags if g[0] == "vis_ins" and g[2] == P]
                 ok = False
